@@ -259,6 +259,52 @@ def g_c20_lines(repo):
             d.close()
     return out
 
+
+# ----------------------------------------------------------------------------- C16/C11/C12: ONC-RPC over TCP, more than one segment per flow
+def _rpc_tcp_session(repo, segments, sport):
+    """one TCP flow to port 111 carrying the given data segments; returns the application payload of each reply ('' = bare ACK)"""
+    d = R.Driver(repo)
+    try:
+        d.cfg(mac=R.MAC)
+        src, dst, dp = '10.0.0.2', '10.0.0.1', 111
+        c = d.cookie(src, dst, sport, dp)
+        seq = 1000; out = []
+        for p_ in segments:
+            r = d.frame(R.eth(R.MAC, R.PEER, 0x0800, R.ip4(src, dst, 6, R.tcp(sport, dp, seq, (c + 1) & 0xffffffff, R.PSH | R.ACK, p_))))
+            seq += len(p_)
+            out.append(r[1][54:].hex() if r[0] == 'reply' else None)
+        return out
+    finally:
+        d.close()
+
+def _rpc_record(body):
+    return struct.pack('!I', 0x80000000 | len(body)) + body
+
+def g_rpc_tcp_second_call(repo):
+    """C16 (and C12): every call on a flow is answered with ITS xid; a reply-typed record is not answered.
+    Known finding: the per-flow parser state is never reset after the first call completes, so every later
+    segment on the flow re-sends the first reply."""
+    call1 = _rpc_record(struct.pack('!IIIIIIIIII', 0x11223344, 0, 2, 100000, 2, 0, 0, 0, 0, 0))
+    call2 = _rpc_record(struct.pack('!IIIIIIIIII', 0x55667788, 0, 2, 100000, 2, 0, 0, 0, 0, 0))
+    rmsg = _rpc_record(struct.pack('!IIIIII', 0x99aabbcc, 1, 0, 0, 0, 0))
+    a = _rpc_tcp_session(repo, [call1, call2], 40200)
+    b = _rpc_tcp_session(repo, [call1, rmsg], 40201)
+    info = {'obligation': 'ground/C16/tcp-second-call-xid', 'two_calls_replies': a, 'call_then_reply_typed_record': b}
+    ok = bool(a[0]) and a[0][8:16] == '11223344' and bool(a[1]) and a[1][8:16] == '55667788' and not b[1]
+    return ok, info
+
+def g_rpc_tcp_args_cut(repo):
+    """C11 for ONC-RPC: a GETPORT call (40-byte header + 16 argument bytes) is answered once, by the segment that
+    completes the record, however it is cut.  Known finding: the reply is sent as soon as the call header is
+    complete and every later segment re-sends it."""
+    body = struct.pack('!IIIIIIIIII', 0x11223344, 0, 2, 100000, 2, 3, 0, 0, 0, 0) + struct.pack('!IIII', 100003, 3, 6, 0)
+    rec = _rpc_record(body)
+    one = _rpc_tcp_session(repo, [rec], 40210)
+    cut = _rpc_tcp_session(repo, [rec[:44], rec[44:]], 40211)
+    info = {'obligation': 'ground/C11/rpc-args-cut', 'one_segment': one, 'cut_after_header': cut}
+    ok = bool(one[0]) and not cut[0] and cut[1] == one[0]
+    return ok, info
+
 # ----------------------------------------------------------------------------- per-property driver
 def run(pid, tier, repo, build, seed):
     res = {'obligations': 0, 'discharged': 0, 'violations': [], 'undecided': [], 'details': []}
@@ -321,6 +367,14 @@ def run(pid, tier, repo, build, seed):
                         'witness': {'payload_hex': x['witness'].hex(), 'kind': x['kind'], 'signature': x['sig']}})
                 if disc:
                     res['obligations'] += len(keys) - 1
+        if pid in ('C16', 'C12'):
+            ok_, info = g_rpc_tcp_second_call(repo)
+            add(ok_, info, 'ground/C16/tcp-second-call-xid',
+                'every ONC-RPC call on a TCP flow is answered with its own XID and a reply-typed record is not answered (witness: two calls / call then reply-typed record on one flow)')
+        if pid == 'C11':
+            ok_, info = g_rpc_tcp_args_cut(repo)
+            add(ok_, info, 'ground/C11/rpc-args-cut',
+                'an ONC-RPC call with arguments is answered once, by the segment that completes the record (witness: GETPORT call cut after the 40-byte header)')
         if pid == 'C11':
             same, info = g_c11_prefix(repo)
             add(same, info, 'ground/C11/identification-prefix-not-fed',
